@@ -69,6 +69,10 @@ Definition check (c : case) : bool :=
   (* the dumped pre-state is a sorted map in every column family and survives the round trip *)
   sortedb blt (o_subs (c_pre c)) && sortedb blt (keyset (o_nodes (c_pre c))) && sortedb blt (keyset (o_stale (c_pre c)))
   && obs_eqb (obs_of s0) (c_pre c)
+  (* side condition `dels_old` of the composed theorem (Proof/C19_Composed.v): every key the pruning
+     loop deleted belongs to a version older than the one committed (encode_key = 8-byte big-endian
+     version ++ path bytes ++ parity) *)
+  && forallb (fun k => be_decode (firstn 8 k) <? o_version (c_pre c) + 1) (c_deleted c)
   && match commit_steps (c_pruning c) s0 (c_updates c) d with
      | CommitPanic => false
      | CommitSteps steps =>
